@@ -666,7 +666,7 @@ macro_rules! path_attributes {
                     $(
                         Self::$name(epa) => epa.length()
                     ),+,
-                    Self::Unimplemented(u) => u.value.len(),
+                    Self::Unimplemented(u) => u.value().len(),
                     Self::Invalid(_, _, v) => v.remaining()
                 }
             }
